@@ -64,11 +64,16 @@ type schedule struct {
 	gossip    int  // -1 never; k ≥ 0: blocks of the next k+1 momentums are gossiped before each batch when possible
 	restart   int  // restart every `restart` batches (0 = never)
 	overlap   bool // re-deliver the last momentum(s) of the previous batch at the start of the next
+	rival     bool // before a batch, gossip a competing block (same account, same height, other content) for accounts whose next block the batch confirms
 }
 
 func init() {
 	register("sync", func(c *Ctx) {
 		for i := 0; i < c.N; i++ {
+			if i%6 == 1 {
+				syncDeepWarm(c, i)
+				continue
+			}
 			syncHistory(c, i)
 		}
 	})
@@ -279,6 +284,7 @@ func syncHistory(c *Ctx, id int) {
 		{name: "gossip-lead0", maxBatch: 1 + c.R.Intn(4), gossip: 0},
 		{name: "gossip-lead-k+restart", maxBatch: 1 + c.R.Intn(8), gossip: 1 + c.R.Intn(3), restart: 2 + c.R.Intn(4)},
 		{name: "big-batch+restart+overlap", maxBatch: 20 + c.R.Intn(100), gossip: -1, restart: 1, overlap: true},
+		{name: "gossiped-rival-blocks", maxBatch: 1 + c.R.Intn(3), gossip: -1, rival: true},
 	}
 	type result struct {
 		name       string
@@ -327,6 +333,42 @@ func syncHistory(c *Ctx, id int) {
 				}
 				c.HitN("gossiped-accepted", accepted)
 				c.HitN("gossiped-offered", len(blocks))
+			}
+			if sc.rival {
+				// a competing block for the next block of an account, built and signed on the follower itself (same previous,
+				// same height as the block the coming momentum confirms) and delivered as gossip
+				seen := map[types.Address]bool{}
+				for k := pos; k < pos+size; k++ {
+					for _, b := range chainA[k].AccountBlocks {
+						if seen[b.Address] || types.IsEmbeddedAddress(b.Address) {
+							seen[b.Address] = true
+							continue
+						}
+						seen[b.Address] = true
+						kp := keyOf(b.Address)
+						if kp == nil || c.R.Intn(3) == 0 {
+							continue
+						}
+						var tx *nom.AccountBlockTransaction
+						var gerr error
+						if p := safely(func() {
+							tx, gerr = f.sup.GenerateFromTemplate(&nom.AccountBlock{BlockType: nom.BlockTypeUserSend, Address: b.Address,
+								ToAddress: g.User1.Address, TokenStandard: types.ZnnTokenStandard, Amount: big.NewInt(int64(1 + c.R.Intn(5000)))}, kp.Signer)
+						}); p != "" || gerr != nil || tx == nil {
+							c.Hit("rival-not-built")
+							continue
+						}
+						if tx.Block.Height != b.Height || tx.Block.Hash == b.Hash {
+							c.Hit("rival-not-competing")
+							continue
+						}
+						if err := f.Gossip([]*nom.AccountBlock{tx.Block}); err == nil {
+							c.Hit("rival-gossiped")
+						} else {
+							c.Hit("rival-refused")
+						}
+					}
+				}
 			}
 			from := pos
 			if sc.overlap && pos > 0 && c.R.Intn(2) == 0 {
